@@ -211,3 +211,30 @@ func Times(ss ...Sched) []int64 {
 	sort.Slice(ts, func(i, j int) bool { return ts[i] < ts[j] })
 	return ts
 }
+
+// CapSched returns min(s, cap) as a schedule with the same event times (what remains locked of a
+// lockup schedule once the grant is cut down to cap).
+func CapSched(s Sched, cap Amt) Sched {
+	o := Sched{Start: s.Start}
+	ev := append([]Event{}, s.Events...)
+	sort.SliceStable(ev, func(i, j int) bool { return ev[i].T < ev[j].T })
+	cum, prev := Amt{}, Amt{}
+	for _, e := range ev {
+		cum = cum.Add(e.A)
+		now := cum.Min(cap)
+		d := now.Sub(prev)
+		if !d.IsZero() {
+			o.Events = append(o.Events, Event{T: e.T, A: d})
+		}
+		prev = now
+	}
+	return o
+}
+
+// Get returns the amount of one denomination (0 if absent).
+func (a Amt) Get(d string) *big.Int {
+	if v, ok := a[d]; ok {
+		return new(big.Int).Set(v)
+	}
+	return new(big.Int)
+}
